@@ -39,6 +39,7 @@ type step struct {
 	Mode  int    `json:"mode"`
 	Short bool   `json:"short"`
 	B     int    `json:"b"`
+	Bare  bool   `json:"bare"` // send: the upstream answers this request without a body
 }
 type hcase struct {
 	Steps []step `json:"steps"`
@@ -64,6 +65,7 @@ type rq struct {
 	got   bool
 	rep   xc02.Reply
 	short bool
+	bare  bool
 	arr   *xc02.Arrival
 	epoch int
 }
@@ -235,7 +237,7 @@ func (e *env) runHop(name string, c hcase) map[string]interface{} {
 		switch s.Op {
 		case "send":
 			cl := getConn(s.Conn)
-			q := &rq{tok: fmt.Sprintf("%s-r%d", name, s.R), cl: cl, short: s.Short, epoch: e.epoch}
+			q := &rq{tok: fmt.Sprintf("%s-r%d", name, s.R), cl: cl, short: s.Short, bare: s.Bare, epoch: e.epoch}
 			q.dsid = e.freshID()
 			if s.Mode != 0 {
 				if k := reqs[s.Mode]; k != nil && k.arr != nil && !cl.Outstanding(k.arr.UID) {
@@ -259,7 +261,7 @@ func (e *env) runHop(name string, c hcase) map[string]interface{} {
 				continue
 			}
 			mark := e.sched.Mark()
-			if !e.up.Reply(q.arr.Conn, q.arr.UID, q.tok, s.Op) {
+			if !e.up.ReplyBody(q.arr.Conn, q.arr.UID, q.tok, s.Op, q.bare) {
 				diverged++
 				continue
 			}
@@ -287,14 +289,14 @@ func (e *env) runHop(name string, c hcase) map[string]interface{} {
 				continue
 			}
 			e.g.HoldOnce("ds.woken")
-			if !e.up.Reply(a.arr.Conn, a.arr.UID, a.tok, "ans") || !e.g.AwaitArrive("ds.woken", e.w(0)) {
+			if !e.up.ReplyBody(a.arr.Conn, a.arr.UID, a.tok, "ans", a.bare) || !e.g.AwaitArrive("ds.woken", e.w(0)) {
 				e.g.Release("ds.woken")
 				a.wait(e.w(0))
 				diverged++
 				continue
 			}
 			mark := e.sched.Mark()
-			if e.up.Reply(b.arr.Conn, b.arr.UID, b.tok, "ans") {
+			if e.up.ReplyBody(b.arr.Conn, b.arr.UID, b.tok, "ans", b.bare) {
 				e.awaitTable(mark, b.arr.UID)
 				b.wait(e.w(0))
 			}
@@ -315,7 +317,7 @@ func (e *env) runHop(name string, c hcase) map[string]interface{} {
 				continue
 			}
 			e.g.Hold("us.recv.guard")
-			if !e.up.Reply(q.arr.Conn, q.arr.UID, q.tok, "ans") || !e.g.AwaitArrive("us.recv.guard", e.w(0)) {
+			if !e.up.ReplyBody(q.arr.Conn, q.arr.UID, q.tok, "ans", q.bare) || !e.g.AwaitArrive("us.recv.guard", e.w(0)) {
 				e.g.Release("us.recv.guard")
 				diverged++
 				continue
@@ -349,7 +351,7 @@ func (e *env) runHop(name string, c hcase) map[string]interface{} {
 				continue
 			}
 			e.g.Hold("us.recv.guard")
-			if !e.up.Reply(q.arr.Conn, q.arr.UID, q.tok, "ans") || !e.g.AwaitArrive("us.recv.guard", e.w(0)) {
+			if !e.up.ReplyBody(q.arr.Conn, q.arr.UID, q.tok, "ans", q.bare) || !e.g.AwaitArrive("us.recv.guard", e.w(0)) {
 				e.g.Release("us.recv.guard")
 				diverged++
 				continue
@@ -446,7 +448,7 @@ func (e *env) runHop(name string, c hcase) map[string]interface{} {
 			q.wait(e.w(shortMs * time.Millisecond))
 		} else if q.arr != nil && q.epoch == e.epoch {
 			mark := e.sched.Mark()
-			if e.up.Reply(q.arr.Conn, q.arr.UID, q.tok, "ans") {
+			if e.up.ReplyBody(q.arr.Conn, q.arr.UID, q.tok, "ans", q.bare) {
 				e.awaitTable(mark, q.arr.UID)
 			}
 			q.wait(e.w(0))
@@ -538,6 +540,9 @@ func (e *env) runStorm(name string, rng *rand.Rand, nconn, workersPerConn, burst
 							q.short, beh, tmo = true, "hold", 40+int32(r.Intn(40))
 						case x < 5:
 							beh = fmt.Sprintf("dup:%d", r.Intn(2000))
+						}
+						if !q.short && r.Intn(6) == 0 { // answered without a body
+							beh = "bare" + beh
 						}
 						if cl.Service == "c02r" && r.Intn(3) == 0 { // first attempt answered with an error status and a body, then as above
 							beh = "err" + beh
